@@ -104,8 +104,8 @@ def transformations(spec, recipe, idx):
     return out
 
 
-def best(spec, recipe, kind="best", window=None):
-    obs = A.eval_case(spec, recipe, "cbc", kind, window)
+def best(spec, recipe, kind="best", window=None, warm=None):
+    obs = A.eval_case(spec, recipe, "cbc", kind, window, warm=warm)
     return obs["disorder"] if obs["ok"] else None
 
 
@@ -198,6 +198,21 @@ def run(task):
                                                "dissimilarity": recipe, "transformation": name, "disorder": base,
                                                "transformed_disorder": got})
             res["outcomes"].append(round(base, 5))
+            # the identity transformation, reached through another history: the same continuum obtained by editing a
+            # neighbouring one that the SAME dissimilarity object has already been applied to
+            if not big and idx % 3 == 0 and n >= 2:
+                how = A.WARM_KINDS[(idx // 3) % len(A.WARM_KINDS)]
+                got = best(spec, recipe, warm={"recipe": recipe, "how": how})
+                res["evaluations"] += 1
+                res["transitions"] += 2
+                res["traces"] += 1
+                res["state_set"].append(h([spec, recipe, "history", how]))
+                if got is None or not close(got, base):
+                    res["violations"].append({
+                        "msg": f"best-alignment disorder {base} becomes {got} when the same continuum is reached by {how}() "
+                               f"after an earlier alignment with the same dissimilarity",
+                        "case": {"spec": spec, "recipe": recipe, "history": how},
+                        "sig": h(["history", how, recipe, len(res["violations"]) // 3])})
             # "multiplying delta_empty by c multiplies EVERY disorder by c": also the fast alignment's (window 1, 2).
             # Only this relation is claimed for the heuristic: its windows follow absolute positions (a window's
             # limit starts from 0) and the label order of equal segments, so translations / renamings may
@@ -257,6 +272,11 @@ def replay(case):
         g0 = gamma(spec, recipe, sampler, seed)
         g1 = gamma(spec, scale_recipe(recipe, c), sampler, seed)
         return [] if close(g0, g1) else [{"msg": f"gamma {g0} becomes {g1} under delta_empty x{c}", "case": case}]
+    if "history" in case:
+        b0 = best(spec, recipe)
+        b1 = best(spec, recipe, warm={"recipe": recipe, "how": case["history"]})
+        return [] if (b0 is not None and b1 is not None and close(b0, b1)) else \
+            [{"msg": f"disorder {b0} becomes {b1} when the continuum is reached by {case['history']}()", "case": case}]
     kind, w = ("fast", case["fast"]) if case.get("fast") else ("best", None)
     base = best(spec, recipe, kind, w)
     for idx in range(0, 50):
